@@ -109,6 +109,25 @@ theorem rich_segment_terminator (lb : Nat → Nat → Bool) (l : List Cell) :
       (firstLineSegment lb true l).2 = true) :=
   firstLineSegment_term lb l true (by intro h; cases h)
 
+/-- `draw_one_line_per_row` (row loop of `Text.drawSoftwrap` / `RichText.drawSoftwrap`): as long as the
+lines fit below `Max.Height` (`row + #lines ≤ Max.Height + 1`, the bound the loop itself uses), line
+`k` is written to row `row + k` — one line per row, none skipped, none merged — and the cells written
+in that row are `drawRow` of exactly that line. -/
+theorem draw_one_line_per_row (maxW maxH : UInt16) (ls : List (List Cell)) (row : UInt16)
+    (h : row.toNat + ls.length ≤ maxH.toNat + 1) :
+    (drawRows maxW maxH row ls).map (·.2) = ls.map (drawRow maxW 0) ∧
+    (drawRows maxW maxH row ls).map (·.1.toNat) = List.range' row.toNat ls.length :=
+  drawRows_spec maxW maxH ls row h
+
+/-- Within a row, the cells of a line (positive widths, fitting the widget: by `line_width` this is
+every emitted line without its trailing whitespace) are all written, each at the column equal to
+the display width of the cells before it. -/
+theorem draw_row_columns (maxW : UInt16) (l : List Cell) (col : UInt16)
+    (hpos : ∀ c ∈ l, 0 < c.w) (hfit : col.toNat + sumW l ≤ maxW.toNat) :
+    (drawRow maxW col l).map (·.2) = l ∧
+    ∀ k, k < l.length → ((drawRow maxW col l).map (·.1.toNat))[k]? = some (col.toNat + sumW (l.take k)) :=
+  drawRow_spec maxW l col hpos hfit
+
 /-- richtext: the transcribed `firstLineSegment` meets the oracle hypotheses for every pairwise
 line-break function, so the theorems above hold for `richLines` unconditionally. -/
 theorem rich_oracle_ok (lb : Nat → Nat → Bool) : OracleOK (richOracle lb) := richOracle_ok lb
